@@ -98,18 +98,25 @@ def main(args):
     pool.run_targets(run, "contracts.serializer", ["round_trip", "enum_converter"])
     for o in cser.ground_obligations():
         run.add(o)
+    from contracts import srcloc
+    pool.run_targets(run, "contracts.srcloc", ["location_text_round_trip"])
     rp = None
     for ob in run.obligations[n0:]:
         if ob.verdict == core.REFUTED and ob.replay is None:
-            rp = rp or cser.replay_round_trip(ob.name, ob.model)
-            ob.replay = rp
+            if ob.name.startswith("SourceLocation."):
+                ob.replay = srcloc.replay_location(ob.name, ob.model)
+            else:
+                rp = rp or cser.replay_round_trip(ob.name, ob.model)
+                ob.replay = rp
+    run.function("compiler.util.parser_types.SourceLocation.__str__ / from_str, SourcePosition.__str__ / from_str",
+                 "pyvc: from_str(str(loc)) == loc for every location satisfying the class invariants (any positions, both flags), executed from the real source on piecewise strings")
     run.function("compiler.util.ir_data_utils.IrDataSerializer.to_dict", "pyvc: with exclude_none=True keeps exactly the fields that are not None and not an empty list (falsy scalars, falsy locations and enum members are kept)")
     run.function("compiler.util.ir_data_utils.IrDataSerializer._to_dict", "pyvc: value forms per field-spec kind (message, message list, SourceLocation -> str, everything else as is), keys in field order")
     run.function("compiler.util.ir_data_fields.fields_and_values", "pyvc (inlined): every spec of the node, its value, filtered by the caller's predicate")
     run.function("compiler.util.ir_data_utils.IrDataSerializer._from_dict", "pyvc: keyword arguments exactly for the keys whose value is not None, converted per field-spec kind; composed with to_dict into the round trip under the stated hypotheses")
     run.function("compiler.util.ir_data_utils.IrDataSerializer._enum_type_converter", "pyvc: by name for str, by value otherwise")
     run.assume(*core.STANDING_ASSUMPTIONS["E1"])
-    run.assume("serializer round trip hypotheses: (IH) children round-trip (structural induction over the finite IR tree); (LOC) SourceLocation.from_str(str(l)) == l - bounded part below; "
+    run.assume("serializer round trip hypotheses: (IH) children round-trip (structural induction over the finite IR tree); (LOC) SourceLocation.from_str(str(l)) == l - proved by the SourceLocation.text-round-trip obligations (decimal rendering of non-negative ints is digits only and inverted by int(); split/strip/index as modelled by pyvc.PStr); "
                "(JSON) json.loads(json.dumps(d)) == d for str-keyed dicts of None/bool/int/str/list/dict with IntEnum members written as their integer value - CPython json trusted; "
                "bool(v)/str(v) return v for values of that type; the serializer is applied to plain IR nodes (not builder / read-only wrappers)",
                "optional fields with a non-None class default (CanonicalName.module_file = '') are never None in IR the front end produces (an explicit None there would be re-read as the default)")
